@@ -836,6 +836,53 @@ def edge_facts(body):
                 for v in vals:
                     out.append(((s, t["else"]), ("IntNe", e, v)))
     body._edge_facts = out
+    # a switch on a bool chosen between alternatives (`a && b` returned by an inlined predicate: false | n % c == 0): the
+    # true edge was reached through the only alternative that can be true - its comparison holds, and so does everything that
+    # held where it was assigned (the `a` of `a && b`); symmetrically for the false edge
+    derived = []
+    for s in sorted(body.reachable(0)):
+        t = body.term(s)
+        if t["k"] != "switch" or t.get("dty") != "bool":
+            continue
+        e = peel(switch_discr_expr(body, s), through_try=False)
+        neg = False
+        while e is not None and e.k == "un" and e.op == "Not":
+            neg = not neg
+            e = peel(e.a, through_try=False)
+        if e is None or e.k != "multi" or not e.alts or not (2 <= len(e.alts) <= 4):
+            continue
+        bt = bool_edge_targets(body, s)
+        if not bt or bt[0] == bt[1]:
+            continue
+        ds = body.defs().get(e.local, [])
+        if len(ds) != len(e.alts):
+            continue
+        tr, fa = (bt[1], bt[0]) if neg else bt
+        for want, tgt in ((True, tr), (False, fa)):
+            live = []
+            for (dbb, si, kind, payload), alt in zip(ds, e.alts):
+                pa = peel(alt, through_try=False)
+                if pa.k == "const" and isinstance(pa.v, bool) and pa.v != want:
+                    continue
+                live.append((dbb, pa))
+            if len(live) != 1:
+                continue
+            dbb, pa = live[0]
+            if not (dbb == s or s in body.reachable(dbb)):
+                continue
+            if pa.k == "bin" and pa.op in _REL_NEG:
+                derived.append(((s, tgt), (pa.op if want else _REL_NEG[pa.op], pa.a, pa.b)))
+            elif pa.k == "call":
+                derived.append(((s, tgt), ("Bool", pa, want)))
+            for edge, fact in out:
+                if must_pass_edge(body, dbb, edge):
+                    derived.append(((s, tgt), fact))
+    if derived:
+        out = out + derived
+        body._edge_facts = out
+        for c in ("_facts_at", "_facts_at_e"):
+            if getattr(body, c, None) is not None:
+                setattr(body, c, {})
     return out
 
 
@@ -983,12 +1030,70 @@ def _const_of(e):
     return None
 
 
+def _expand_deep(facts, e, depth=0):
+    """copy of e with calls to small pure crate-local helpers (one return definition) replaced by what they compute"""
+    if e is None or depth > 12:
+        return e, False
+    p = peel(e, through_try=False)
+    changed = False
+    if p.k == "call":
+        x = expand_local_call(facts, p)
+        if x is not p:
+            p = peel(x, through_try=False)
+            changed = True
+    n = E(p.k)
+    for sl in E.__slots__[1:]:
+        setattr(n, sl, getattr(p, sl))
+    if p.a is not None:
+        n.a, c = _expand_deep(facts, p.a, depth + 1)
+        changed = changed or c
+    if p.b is not None:
+        n.b, c = _expand_deep(facts, p.b, depth + 1)
+        changed = changed or c
+    if p.args:
+        na = []
+        for x in p.args:
+            y, c = _expand_deep(facts, x, depth + 1)
+            changed = changed or c
+            na.append(y)
+        n.args = na
+    return (n if changed else p), changed
+
+
 def known_ge(body, bb, a, b, _depth=0):
     """Is a >= b established at bb (by dominating guards or by construction b = min(a, ..))?"""
+    if _depth == 0:
+        try:
+            from . import effects as _eff
+            fx = _eff._FACTS_FOR_VERDICTS.get(id(body))
+        except Exception:
+            fx = None
+        if fx is not None:
+            ea, ca = _expand_deep(fx, a)
+            eb, cb_ = _expand_deep(fx, b)
+            if (ca or cb_) and known_ge(body, bb, ea, eb, 1):
+                return True
     pa, pb = peel(a, through_try=False), peel(b, through_try=False)
     cb = _const_of(pb)
     if cb == 0:
         return True
+    # a = len(x[k..]): the tail of x from k on holds len(x) - k elements
+    if _depth < 3 and pa.k == "call" and (pa.q or "").split("::")[-1] == "len" and pa.args:
+        ix = pa.args[0]
+        n_ = 0
+        while ix is not None and n_ < 6:
+            ix = peel(ix, through_try=False)
+            n_ += 1
+            if ix is not None and ix.k in ("ref", "deref"):
+                ix = ix.a
+                continue
+            break
+        if ix is not None and ix.k == "call" and (ix.q or "").split("::")[-1] in ("index", "index_mut") and len(ix.args or []) == 2:
+            rg = peel(ix.args[1], through_try=False)
+            if rg.k == "agg" and rg.adt == "std::ops::RangeFrom" and rg.args:
+                whole = E("call", q=pa.q, rq=pa.rq, args=[ix.args[0]], bb=pa.bb)
+                if known_ge(body, bb, E("bin", op="Sub", a=whole, b=rg.args[0]), b, _depth + 1):
+                    return True
     if _same_len_now(pa, pb):
         return True           # len() of one container, evaluated for the same operation (`&buf[buf.len()..]`)
     if _depth < 3:
@@ -1022,6 +1127,10 @@ def known_ge(body, bb, a, b, _depth=0):
     if pb.k == "call" and (pb.q in MIN_CALLS or pb.rq in MIN_CALLS) and any(_same_expr(x, pa) or _same_len_now(x, pa) for x in pb.args):
         return True
     if pa.k == "call" and (pa.q in MAX_CALLS or pa.rq in MAX_CALLS) and any(_same_expr(x, pb) for x in pa.args):
+        return True
+    # b = a'.saturating_sub(_) / a'.min(_) as a method on the same value
+    if pb.k == "call" and (pb.q or "").split("::")[-1] in ("saturating_sub", "saturating_div", "isqrt") and pb.args and \
+            (_same_expr(pb.args[0], pa) or _same_len_now(pb.args[0], pa)):
         return True
     # b = a' / c  or  a' - c  or  a' & m  with a' == a  (never larger than a for unsigned values)
     if pb.k == "bin" and pb.op in ("Div", "Sub", "BitAnd", "Shr", "Rem") and (_same_expr(pb.a, pa) or _same_len_now(pb.a, pa)):
@@ -1071,6 +1180,63 @@ def known_ge(body, bb, a, b, _depth=0):
                 if rx is not None and rx == ry and not _mutated_between(body, rx, edge, bb):
                     return True
     return False
+
+
+def _self_field_written_between(body, expr, from_bb, use_bb):
+    """is a field of *self that occurs in expr assigned on some path from from_bb to use_bb ?"""
+    from .mir import self_field_path
+    flds = set()
+    for x in walk(expr):
+        fp = self_field_path(x)
+        if fp:
+            flds.add(fp[0])
+    if not flds:
+        return False
+    between = body.reachable(from_bb) & {b for b in body.reachable(0) if use_bb in body.reachable(b) or b == use_bb}
+    for b in between:
+        if b == use_bb:
+            continue
+        for st in body.blocks[b]["stmts"]:
+            if st["k"] == "assign" and st["dst"]["l"] == 1 and st["dst"]["p"] and st["dst"]["p"][0] == "*":
+                pj = st["dst"]["p"]
+                if len(pj) >= 2 and isinstance(pj[1], dict) and pj[1].get("n") in flds:
+                    return True
+        t = body.term(b)
+        if t["k"] == "call":
+            for a in t["args"]:
+                e = body.operand_expr(a)
+                pe = peel(e, through_try=False)
+                if pe is not None and pe.k == "ref" and getattr(pe, "mut", False):
+                    fp = self_field_path(pe)
+                    if fp and fp[0] in flds:
+                        return True
+    return False
+
+
+def consistent_alts(body, e, bb):
+    """alternatives of a hand-selected value (`let need = match self.state { A => 4, B => 2 }`) that can be the value at bb:
+    an alternative assigned under a discriminant / integer fact `X == v` is excluded when bb lies under `X == v'` (v' != v) for
+    the same X and nothing writes X's self fields in between (the same `match self.state` taken twice).  Returns the list of
+    remaining alternative expressions, or None when e is not such a value."""
+    p = peel(e, through_try=False)
+    if p is None or p.k != "multi" or not p.alts:
+        return None
+    ds = body.defs().get(p.local, [])
+    if len(ds) != len(p.alts):
+        return None
+    here = [f for f in facts_at(body, bb) if f[0] == "IntEq"]
+    out = []
+    for (dbb, si, kind, payload), alt in zip(ds, p.alts):
+        excluded = False
+        for f in facts_at(body, dbb):
+            if f[0] != "IntEq":
+                continue
+            for g in here:
+                if g[2] != f[2] and _same_expr(f[1], g[1]) and not _self_field_written_between(body, f[1], dbb, bb):
+                    excluded = True
+        if not excluded:
+            out.append(alt)
+    return out
 
 
 def known_nonzero(body, bb, a):
